@@ -2,7 +2,10 @@
 # usage: tools/seed_pipeline.sh C13 [tier] [props]  -- intake + verify + detect for what a sub-agent left in /tmp/seed/<ID>/out
 id="$1"; tier="${2:-quick}"; props="${3:-own}"; round="${4:-1}"
 cd /verif
-if [ "$round" = 5 ]; then
+if [ "$round" = 6 ]; then
+  /venv/bin/python tools/seeded.py intake "$id" --out out6 --offset 10 || exit 1
+  dirs="seeded/$id-11 seeded/$id-12"
+elif [ "$round" = 5 ]; then
   /venv/bin/python tools/seeded.py intake "$id" --out out5 --offset 8 || exit 1
   dirs="seeded/$id-9 seeded/$id-10"
 elif [ "$round" = 4 ]; then
